@@ -237,7 +237,6 @@ Paths(v) ==
     (IF v.t = "dict" THEN UNION {{<<[t |-> "key", k |-> v.items[i][1]]>> \o p : p \in Paths(v.items[i][2])} : i \in DOMAIN v.items}
      ELSE IF v.t = "list" THEN UNION {{<<[t |-> "idx", i |-> i]>> \o p : p \in Paths(v.elems[i])} : i \in DOMAIN v.elems}
      ELSE {})
-FindKeyCases(u) == UNION {{[kind |-> "findkey", d |-> D(d), path |-> p, res |-> FindKey(D(d), p)] : p \in Paths(D(d))} : d \in D1}
 
 \* find universes
 FindItems == {<<>>, << <<"name", S(1)>> >>, << <<"name", S(2)>> >>, << <<"name", S(3)>> >>, << <<"name", N(1)>> >>,
@@ -249,35 +248,38 @@ FindItems == {<<>>, << <<"name", S(1)>> >>, << <<"name", S(2)>> >>, << <<"name",
 FindCore  == {<<>>, << <<"name", S(1)>> >>, << <<"x", N(2)>>, <<"name", S(1)>> >>, << <<"name", L(<<S(1), S(3)>>)>> >>,
               << <<"name", N(0)>> >>}
 FindLists == {[i \in DOMAIN s |-> D(s[i])] :
-                 s \in IF Big THEN SeqsUpTo(FindItems, 3) \cup SeqsOf(FindCore, 4) ELSE SeqsUpTo(FindItems, 2) \cup SeqsOf(FindCore, 3)}
+                 s \in IF Big THEN SeqsUpTo(FindItems, 3) \cup SeqsOf(FindItems \ {<< <<"x", N(1)>> >>, << <<"name", S(3)>> >>}, 4)
+                             ELSE SeqsUpTo(FindItems, 3)}
 FindVals  == {S(0), S(1), S(2), S(3), N(0), N(1), N(2)}
 FindValLists == {L(<<S(1), S(3)>>), L(<<S(2)>>), L(<<N(1), S(1)>>)}
 KeyTypes(lst, key) == {Lookup(lst[i].items, key).t : i \in {j \in DOMAIN lst : Has(lst[j].items, key)}}
 Homogeneous(lst, key) == Cardinality(KeyTypes(lst, key)) <= 1 /\ KeyTypes(lst, key) \subseteq {"str", "int"}
 \* the key is also given in upper case (short lists only, to keep the product small)
 KeyCases(l) == IF Len(l) <= 2 THEN {"l", "U"} ELSE {"l"}
-FindCases(kind) ==
-    IF kind = "find" THEN
-    \* find: equality, also with a list-valued search value
-    UNION {{[kind |-> "find", lst |-> L(l), key |-> "name", kc |-> kc, val |-> v, res |-> Find(l, "name", v)] :
-              v \in FindVals \cup FindValLists, kc \in KeyCases(l)} : l \in FindLists}
-    \* findall: a list of values means "one of"; whether a list-valued keyword can equal a list of values is
-    \* not specified, so that combination is not generated
-    ELSE IF kind = "findall" THEN
-    UNION {{[kind |-> "findall", lst |-> L(l), key |-> "name", kc |-> kc, val |-> v, res |-> FindAll(l, "name", v)] :
-              v \in FindVals \cup (IF "list" \in KeyTypes(l, "name") THEN {} ELSE FindValLists), kc \in KeyCases(l)} : l \in FindLists}
-    ELSE IF kind = "findunique" THEN
-    UNION {{[kind |-> "findunique", lst |-> L(l), key |-> "name", kc |-> kc, res |-> FindUnique(l, "name")] :
-              kc \in KeyCases(l)} : l \in {x \in FindLists : Homogeneous(x, "name")}}
-    ELSE FindKeyCases(0)
+\* the find cases, as a predicate on `case` (nested quantifiers, see UInit)
+FindCase(kind) ==
+    IF kind = "findkey" THEN
+        \E d \in D1 : \E p \in Paths(D(d)) : case = [kind |-> "findkey", d |-> D(d), path |-> p, res |-> FindKey(D(d), p)]
+    ELSE \E l \in FindLists : \E kc \in KeyCases(l) :
+        CASE kind = "find" ->                  \* equality, also with a list-valued search value
+               \E v \in FindVals \cup FindValLists :
+                  case = [kind |-> "find", lst |-> L(l), key |-> "name", kc |-> kc, val |-> v, res |-> Find(l, "name", v)]
+          [] kind = "findall" ->               \* a list of values means "one of"; whether a list-valued keyword can equal
+                                               \* a list of values is not specified: that combination is not generated
+               \E v \in FindVals \cup (IF "list" \in KeyTypes(l, "name") THEN {} ELSE FindValLists) :
+                  case = [kind |-> "findall", lst |-> L(l), key |-> "name", kc |-> kc, val |-> v, res |-> FindAll(l, "name", v)]
+          [] OTHER ->
+               /\ Homogeneous(l, "name")
+               /\ case = [kind |-> "findunique", lst |-> L(l), key |-> "name", kc |-> kc, res |-> FindUnique(l, "name")]
 
 -----------------------------------------------------------------------------
 (* the machines                                                            *)
-\* (the case sets take a dummy argument: TLC evaluates zero-argument constant definitions eagerly in every
-\* run, whether the run uses them or not)
-UpdateCases(u) == UNION {UNION {{UpdateCase(d1, d2, ow) : ow \in OwSet} : d2 \in Patches(d1)} : d1 \in D1}
-UInit == case \in UpdateCases(0) /\ hist = <<>>
-FInit == case \in UNION {FindCases(k) : k \in FindKinds} /\ hist = <<>>
+\* (nested quantifiers: TLC enumerates them in linear time, whereas a UNION of many small sets is normalised
+\* in quadratic time; the find case sets take a dummy argument because TLC evaluates zero-argument constant
+\* definitions eagerly in every run, whether the run uses them or not)
+UInit == /\ \E d1 \in D1 : \E d2 \in Patches(d1) : \E ow \in OwSet : case = UpdateCase(d1, d2, ow)
+         /\ hist = <<>>
+FInit == (\E k \in FindKinds : FindCase(k)) /\ hist = <<>>
 Stay  == UNCHANGED vars
 
 \* history mode: the next patch is applied to the result of the previous one
